@@ -172,6 +172,30 @@ Definition route_reads (r : route) : list read := single_read_route r.
    requests each call produces with this constant (and judges every one of them). *)
 Definition route_requests (_ : route) : nat := 1.
 
+(* ---------------- what leaves the agent ---------------- *)
+(* compute_signature hex-decodes the secret and FAILS when it is not hex ([usable v = false]; only keys
+   acquired from the host are checked for that before they are latched, a key file is loaded as it
+   is).  handle_request_with_signature logs the failure and forwards the request WITHOUT an
+   authorization header; build_request (the agent's own calls) propagates the error: NO request is
+   sent.  Nothing is ever signed with another key's secret instead. *)
+Inductive outcome :=
+| Sent (h : option (bytes * bytes))    (* request sent; its authorization header (id, secret used) if any *)
+| NotSent.                             (* the call failed before sending anything *)
+
+Definition route_outcome (usable : bytes -> bool) (r : route) (l : loc) : outcome :=
+  match hdr l with
+  | Some (g, v) =>
+      if usable v then Sent (Some (g, v))
+      else match r with ProxiedRequest => Sent None | _ => NotSent end
+  | None => Sent None
+  end.
+
+(* proxied route: `proxy_request.headers_mut().insert(AUTHORIZATION_HEADER, value)` -- HeaderMap::insert
+   REPLACES every value the client supplied under that name; without a header of its own the agent
+   forwards the client's values like any other header (C05's subject) *)
+Definition forwarded_auth {X : Type} (client : list X) (own : option X) : list X :=
+  match own with Some h => [h] | None => client end.
+
 (* ---------------- where the SetKey arguments come from (key_keeper.rs loop_poll) ---------------- *)
 (* Pairing can also be lost at LATCH time: the slot must only ever receive WHOLE key documents.
    The key folder maps a file name (the <guid> of <guid>.key) to the key document stored in it. *)
@@ -234,3 +258,13 @@ Definition sim (k0 : option key) (progs : list (list read)) (ops : list (option 
   list (option (option (bytes * bytes) * bool * (option nat * option nat))) :=
   let c := run handle (sim_config k0 progs ops) (sched ++ completion 0 progs) in
   map (fun i => option_map obs (result_of c (S i))) (seq 0 (length progs)).
+
+(* the same per call site, with the outcome that leaves the agent *)
+Definition sim_routes (usable : bytes -> bool) (k0 : option key) (rs : list route) (ops : list (option key))
+  (sched : list nat) : list (option (outcome * bool * (option nat * option nat))) :=
+  let progs := map route_reads rs in
+  let c := run handle (sim_config k0 progs ops) (sched ++ completion 0 progs) in
+  map (fun ir => option_map (fun l => (route_outcome usable (snd ir) l, setkey_between_reads l,
+                                        (option_map snd (lv l), option_map snd (lg l))))
+                            (result_of c (S (fst ir))))
+      (combine (seq 0 (length rs)) rs).
